@@ -11,7 +11,7 @@ for d in sorted(glob.glob('/verif/seeded/*/')):
         for p, c in r['checks'].items():
             (caught if c['exit'] == 1 else missed).append(p + ('' if c['exit'] in (0, 1) else '(tool error)'))
     note = m.get('verif_note', '')
-    rows.append('| %s | %s | %s | %s | %s |' % (sid, (m.get('summary', '') or '')[:150].replace('|', '/'), ', '.join(sorted(set(caught))) or '–',
+    rows.append('| %s | %s | %s | %s | %s |' % (sid, (m.get('summary') or m.get('what') or '')[:150].replace('|', '/'), ', '.join(sorted(set(caught))) or '–',
                                              ', '.join(sorted(set(missed) - set(caught))) or '–', note))
 table = '| seed | change | caught by (quick) | run without alarm | note |\n|---|---|---|---|---|\n' + '\n'.join(rows)
 s = open('/verif/DESIGN.md').read()
